@@ -118,9 +118,19 @@ PROTOCOL = ("codegen", "__type_order__", "__is_supertype__", "__is_subtype__", "
 
 def r5_forwarders(ctx):
     repo = ctx.repo
-    metas = [c for c in repo.all_classes() if "type" in c.base_names and "__instancecheck__" in c.methods and "__subclasscheck__" in c.methods and any(is_self_attr(n, "_handler", selfname=recv_name(c.methods["__subclasscheck__"])) for n in ast.walk(c.methods["__subclasscheck__"].node))]
+    def forwarded_attr(c):
+        """the attribute of the class object through which __subclasscheck__ is forwarded: cls.<attr>.__subclasscheck__(x)"""
+        m = c.methods["__subclasscheck__"]
+        rv = recv_name(m)
+        for r in ast.walk(m.node):
+            if isinstance(r, ast.Return) and isinstance(r.value, ast.Call) and isinstance(r.value.func, ast.Attribute) and is_self_attr(r.value.func.value, selfname=rv):
+                return r.value.func.value.attr
+        return None
+
+    metas = [c for c in repo.all_classes() if "type" in c.base_names and "__instancecheck__" in c.methods and "__subclasscheck__" in c.methods and forwarded_attr(c)]
     ctx.require(len(metas) == 1, f"expected one handler-forwarding metaclass, found {[m.key for m in metas]}")
     mc = metas[0]
+    HATTR = forwarded_attr(mc)
     n = 0
     for name in PROTOCOL:
         m = mc.methods.get(name)
@@ -133,7 +143,7 @@ def r5_forwarders(ctx):
         ok = len(rets) == 1
         if ok:
             v = rets[0].value
-            ok = isinstance(v, ast.Call) and isinstance(v.func, ast.Attribute) and v.func.attr == name and is_self_attr(v.func.value, "_handler", selfname=rv) and [dotted(a) for a in v.args] == others
+            ok = isinstance(v, ast.Call) and isinstance(v.func, ast.Attribute) and v.func.attr == name and is_self_attr(v.func.value, HATTR, selfname=rv) and [dotted(a) for a in v.args] == others
         n += 1
         ctx.ob(f"{m.key}:forwards", m.loc(), f"the class object forwards {name} to its handler's {name} with the same argument", ok, f"{mc.name}.{name} does not forward to the handler's method of the same name: isinstance / issubclass / ordering on the type object answer a different question")
     ctx.require(n >= 4, f"{mc.key}: too few protocol methods")
